@@ -50,7 +50,21 @@ def domains(tier):
 def plan(tier, seed):
     tasks = [dict(op="solver", solver=s, datafit=d, pen=p, weight=4) for (s, d, p) in domains(tier)]
     tasks += [dict(op="estimator", est=e, weight=3) for e in EST]
+    # the extrapolating solvers on C03's correlated family with an (uncentred) intercept: dense vs CSC
+    tasks += [dict(op="corr", solver=sn, datafit=dn, pen=pk, weight=3) for sn, dn, pk in
+              (("AndersonCD", "Quadratic", "L1"), ("GroupBCD", "QuadraticGroup", "WeightedGroupL2"), ("MultiTaskBCD", "QuadraticMultiTask", "L2_1"))]
     return tasks
+
+
+def corr_comps(task, tier):
+    from mc.drivers import c03
+    for part in (0, 1):
+        for c in c03.acc_family_comps(dict(solver=task["solver"], part=part), tier):
+            kw = dict(c["solver"]["kw"], fit_intercept=True, tol=1e-9, max_iter=200)
+            if kw.get("p0") != 2 or kw.get("max_epochs") != 12:
+                continue
+            y = np.array(c["y"], dtype=float) + 3.0
+            yield dict(solver=dict(name=task["solver"], kw=kw), datafit=c["datafit"], penalty=c["penalty"], X=c["X"], y=y.tolist(), xid=c["xid"] + "+icpt")
 
 
 def run_storage(comp, kind):
@@ -180,6 +194,10 @@ def comps_for(task, tier):
                 base = dict(solver=dict(name=s, kw=kw), datafit={k: v for k, v in dspec.items() if k != "layout"} if dspec else None,
                             penalty=ps, X=X.tolist(), y=y.tolist(), xid=xid)
                 yield base
+                K = R.KNOBS.get(s, {})
+                if "fit_intercept" in K and xid == "tall6x3" and ps is R_first(pk, ps_list) and dspec is dspecs[0] and dn != "QuadraticSVC":
+                    # the other value of fit_intercept (the sparse code paths treat the intercept separately)
+                    yield dict(base, solver=dict(name=s, kw=dict(kw, fit_intercept=not K["fit_intercept"][0])), xid=xid + "+icpt")
                 # the same problem from a warm start that is non-zero on every feature (zero columns included)
                 if s not in ("FISTA", "PDCD_WS", "LBFGS") and xid in ("tall6x3", "wide-zeromid") and ps is R_first(pk, ps_list) and dspec is dspecs[0]:
                     fi = bool(kw.get("fit_intercept", fi_default)) and s not in ("GramCD",)
@@ -301,8 +319,8 @@ def run(task, ctx):
         ctx.sample(dict(op="estimator", est=name, containers=CONTAINERS))
         return
     n = 0
-    for comp in comps_for(task, tier):
-        results = {st: run_storage(comp, st) for st in STORAGES}
+    for comp in (corr_comps(task, tier) if task["op"] == "corr" else comps_for(task, tier)):
+        results = {st: run_storage(comp, st) for st in (STORAGES if task["op"] != "corr" else ("denseF", "csc"))}
         n += 1
         ctx.count("storage_groups")
         if sum(r["status"] == "ok" for r in results.values()) >= 2:
@@ -321,7 +339,7 @@ def replay(params):
         v, wr = exec_est_group(params["case"])
         return dict(violated=bool(v), kinds=[x[0] for x in v], detail=fhex([[x[0], x[1], x[2], x[3]] for x in v[:6]]))
     comp = params["comp"]
-    results = {st: run_storage(comp, st) for st in STORAGES}
+    results = {st: run_storage(comp, st) for st in (STORAGES if not comp["xid"].endswith("+icpt") or not comp["xid"].startswith("corr") else ("denseF", "csc"))}
     v = judge_group(comp, results)
     return dict(violated=bool(v), kinds=[x[0] for x in v], detail=fhex([[x[0], x[1], x[2], x[3]] for x in v[:6]]),
                 outcomes={st: (r["status"], r["exc"] and r["exc"]["type"]) for st, r in results.items()})
